@@ -16,8 +16,10 @@
     * `decodeAll_sound`: a whole text — `drain_actions` between documents, the root symbol restarting the grammar;
     * `spec_fits`: the specification's JSON encodings have the shape (`Fits`) the lemmas ask of a document.
 
-  Hypotheses, and why:  `Fits` — leaves are not objects, null is null, every field present (an absent field takes the
-  default: C15's absent-field clause is checked by the harness, findings F27, F31, F32), the null branch of a union
+  Hypotheses, and why:  `Fits` — leaves are not objects, null is null, every field is present or — absent — has a default
+  of the writer's shape for its type (`FieldVal`: the decoder then reads the default exactly as the function-level reader's
+  `absentField` does, wrapped under the first branch's label when the field is a union; C15's absent-field clause against
+  the SPECIFICATION's reading of a default is checked by the harness: findings F27, F31, F32), the null branch of a union
   is the one labelled "null";  `DOk` — field names distinct and the values of every map are `Flat` (no `RecordEnd`
   pending after them: primitives, enums, fixed, arrays, maps, unions of those) or `Rec1` (a record whose last field
   is flat: exactly its own `RecordEnd` is pending — `iter_map` then pops the frame `RecordStart` pushed, which holds
@@ -238,9 +240,95 @@ theorem sameElse_get {s : String} {kv kv' : List (Val × Val)} (h : SameElse s k
 
 /-- where the decoder finds the JSON value `j` it is about to read: under the current key of the current object,
     or as the current value itself (top of a document, item of an array, value of a union outside an object) -/
-inductive At (d : Dec) (j : Val) : Prop
-  | keyed (kv : List (Val × Val)) (s : String) : d.current = .dict kv → d.key = .str s → dictGetV kv s = some j → At d j
-  | direct : d.current = j → d.key = .none → At d j
+inductive AtV (d : Dec) (dflt : Option Val) (j : Val) : Prop
+  | keyed (kv : List (Val × Val)) (s : String) : d.current = .dict kv → d.key = .str s → dictGetV kv s = some j → AtV d dflt j
+  | direct : d.current = j → d.key = .none → AtV d dflt j
+  /-- the key is absent from the current object and the symbol carries a default: the decoder reads the default -/
+  | absent (kv : List (Val × Val)) (s : String) : d.current = .dict kv → d.key = .str s → dictGetV kv s = none → dflt = some j → AtV d dflt j
+
+/-- the JSON value the function-level reader decodes for an absent field of type `t` with default `dv`
+    (`Json.absentField`): the default, wrapped as a value of the first branch when `t` is a union -/
+def absentWrap (env : Env) (t : Schema) (dv : Val) : Val :=
+  match unwrapRef env t with
+  | .union (b :: _) => if isNullBranch env b then dv else .dict [(.str (label b), dv)]
+  | _ => dv
+
+theorem absentField_eq (env : Env) (t : Schema) (dv : Val) : absentField env t (some dv) = .ok (absentWrap env t dv) := by
+  unfold absentField absentWrap
+  cases h : unwrapRef env t with
+  | union bs => cases bs with
+    | nil => rfl
+    | cons b rest => simp only [pure, Except.pure]; split <;> rfl
+  | _ => rfl
+
+/-- the same, knowing the schema `s` of the value: in the absent case `j` is what the function-level reader makes of
+    the default -/
+inductive At (env : Env) (s : Schema) (d : Dec) (dflt : Option Val) (j : Val) : Prop
+  | keyed (kv : List (Val × Val)) (k : String) : d.current = .dict kv → d.key = .str k → dictGetV kv k = some j → At env s d dflt j
+  | direct : d.current = j → d.key = .none → At env s d dflt j
+  | absent (kv : List (Val × Val)) (k : String) (dv : Val) : d.current = .dict kv → d.key = .str k → dictGetV kv k = none →
+      dflt = some dv → j = absentWrap env s dv →
+      (∀ b rest, unwrapRef env s = .union (b :: rest) → isNullBranch env b = true → dv = .none) → At env s d dflt j
+
+/-- a value that is present (the two ordinary cases) -/
+inductive AtP (d : Dec) (j : Val) : Prop
+  | keyed (kv : List (Val × Val)) (s : String) : d.current = .dict kv → d.key = .str s → dictGetV kv s = some j → AtP d j
+  | direct : d.current = j → d.key = .none → AtP d j
+
+theorem AtP.toAt {d : Dec} {j : Val} (h : AtP d j) (env : Env) (s : Schema) (dflt : Option Val) : At env s d dflt j := by
+  cases h with
+  | keyed kv k hc hk hg => exact .keyed kv k hc hk hg
+  | direct hc hk => exact .direct hc hk
+
+theorem At.toV {env : Env} {s : Schema} {d : Dec} {dflt : Option Val} {j : Val} (h : At env s d dflt j)
+    (hw : ∀ dv, absentWrap env s dv = dv) : AtV d dflt j := by
+  cases h with
+  | keyed kv k hc hk hg => exact .keyed kv k hc hk hg
+  | direct hc hk => exact .direct hc hk
+  | absent kv k dv hc hk hg hd hj _ => rw [hw dv] at hj; subst hj; exact .absent kv k hc hk hg hd
+
+theorem At.retype {env : Env} {s s' : Schema} {d : Dec} {dflt : Option Val} {j : Val} (h : At env s d dflt j)
+    (hu : unwrapRef env s = unwrapRef env s') : At env s' d dflt j := by
+  cases h with
+  | keyed kv k hc hk hg => exact .keyed kv k hc hk hg
+  | direct hc hk => exact .direct hc hk
+  | absent kv k dv hc hk hg hd hj hn =>
+    exact .absent kv k dv hc hk hg hd (by rw [hj]; unfold absentWrap; rw [hu]) (by intro b rest h1 h2; exact hn b rest (hu ▸ h1) h2)
+
+/-- the JSON value the function-level reader decodes for field `f` of an object `kv`: the value under the field's name, or —
+    the key being absent — what `absentField` makes of the field's default (for a union whose first branch is null the
+    default has to be null, as the specification requires of a default) -/
+def FieldVal (env : Env) (kv : List (Val × Val)) (f : Field) (x : Val) : Prop :=
+  dictGetV kv f.name = some x ∨
+  (dictGetV kv f.name = none ∧ ∃ dv, f.default = some dv ∧ x = absentWrap env f.type dv ∧
+    (∀ b rest, unwrapRef env f.type = .union (b :: rest) → isNullBranch env b = true → dv = .none))
+
+theorem fieldVal_dec {env : Env} {kv : List (Val × Val)} {f : Field} {x : Val} (h : FieldVal env kv f x) :
+    (match dictGetV kv f.name with
+      | some x => (pure x : R Val)
+      | none => absentField env f.type f.default) = .ok x := by
+  rcases h with h | ⟨h, dv, hd, rfl, _⟩
+  · rw [h]; rfl
+  · rw [h, hd]; exact absentField_eq env f.type dv
+
+theorem decFields_step {env : Env} {kv : List (Val × Val)} {fld : Field} {x : Val} (h : FieldVal env kv fld x)
+    (g : Schema → Val → R Val) (rest : List Field) (acc : List (Val × Val)) :
+    decFieldsWith env g (fld :: rest) kv acc =
+      (match g fld.type x with
+       | .ok a => decFieldsWith env g rest kv (valDictSet acc fld.name a)
+       | .error e => .error e) := by
+  rcases h with h | ⟨h, dv, hd, rfl, _⟩
+  · simp only [decFieldsWith, h, bind, Except.bind, pure, Except.pure]
+    cases g fld.type x <;> rfl
+  · simp only [decFieldsWith, h, hd, absentField_eq, bind, Except.bind]
+    cases g fld.type (absentWrap env fld.type dv) <;> rfl
+
+theorem fieldVal_at {env : Env} {kvj kvR : List (Val × Val)} {f : Field} {x : Val} {dR : Dec} (h : FieldVal env kvj f x)
+    (hcur : dR.current = .dict kvR) (hag : dictGetV kvR f.name = dictGetV kvj f.name) :
+    At env f.type { dR with key := .str f.name } f.default x := by
+  rcases h with h | ⟨h, dv, hd, hx, hn⟩
+  · exact .keyed kvR f.name hcur rfl (by rw [hag]; exact h)
+  · exact .absent kvR f.name dv hcur rfl (by rw [hag]; exact h) hd hx hn
 
 /-- the decoder state after a value, compared with the state `d1` before it -/
 structure After (d1 d3 : Dec) : Prop where
@@ -316,7 +404,8 @@ def Fits (env : Env) : Nat → Schema → Val → Prop
       (∀ b, j = .none → bs.find? (isNullBranch env) = some b → Fits env fuel b .none) ∧
       (∀ l x b, j = .dict [(.str l, x)] → findLabel env bs l = some b → Fits env fuel b x)
     | .record _ fields _ =>
-      ∀ kv, j = .dict kv → ∀ f ∈ fields, ∃ x, dictGetV kv f.name = some x ∧ Fits env fuel f.type x
+      ∀ kv, j = .dict kv → ∀ f ∈ fields, ∃ x, FieldVal env kv f x ∧ Fits env fuel f.type x ∧
+        (dictGetV kv f.name = none → KeysOk x ∧ Small x)
     | .ref n => ∀ s', env.get? n = some s' → Fits env fuel s' j
 
 mutual
@@ -354,10 +443,10 @@ inductive DOk (env : Env) : Schema → Prop
 def DSound (env : Env) (fuel : Nat) : Prop :=
   ∀ (s : Schema) (j w : Val), Json.decode fuel env s j = .ok w → Fits env fuel s j → KeysOk j → Small j →
   ∀ (d : Option Val) (G : Sym), Gram env s d G → nonEmptyRec s = true → DOk env s →
-  ∀ (st : DS) (acts rest : List Sym) (d1 : Dec), DEntry st acts G rest d1 → restOk rest → At d1 j →
+  ∀ (st : DS) (acts rest : List Sym) (d1 : Dec), DEntry st acts G rest d1 → restOk rest → At env s d1 d j →
     ∃ st', mDecode fuel env s st = .ok (w, st') ∧ DExit st' rest d1 (Flat env s) (Rec1 env s)
 
-theorem readValue_at {d1 : Dec} {j : Val} (hat : At d1 j) (hnd : ∀ kv, j ≠ .dict kv) (dflt : Option Val) :
+theorem readValue_at {d1 : Dec} {j : Val} {dflt : Option Val} (hat : AtV d1 dflt j) (hnd : ∀ kv, j ≠ .dict kv) :
     d1.readValue dflt = .ok j := by
   unfold Dec.readValue
   cases hat with
@@ -365,24 +454,25 @@ theorem readValue_at {d1 : Dec} {j : Val} (hat : At d1 j) (hnd : ∀ kv, j ≠ .
   | direct hc hk =>
     rw [hc]
     cases j <;> first | rfl | (exact absurd rfl (hnd _))
+  | absent kv s hc hk hg hd => rw [hc]; simp only [hk, dictGetKey, hg, hd, getDefault]
 
 theorem dleaf {st : DS} {acts rest : List Sym} {d1 : Dec} {k : TK} {dflt : Option Val} {j : Val}
     (hE : DEntry st acts (.term k dflt) rest d1) (h1 : (k == TK.arrayEnd) = false) (h2 : (k == TK.mapEnd) = false)
-    (hat : At d1 j) (hnd : ∀ kv, j ≠ .dict kv) :
+    (hat : AtV d1 dflt j) (hnd : ∀ kv, j ≠ .dict kv) :
     st.readLeaf k = .ok (j, ⟨rest, d1⟩) := by
   unfold DS.readLeaf
   rw [dadv_term hE h1 h2]
-  simp only [bind, Except.bind, symDefault, readValue_at hat hnd dflt]
+  simp only [bind, Except.bind, symDefault, readValue_at hat hnd]
   rfl
 
 theorem dutf8 {st : DS} {acts rest : List Sym} {d1 : Dec} {dflt : Option Val} {j : Val}
     (hE : DEntry st acts (.term .string dflt) rest d1) (hr : restOk rest)
-    (hat : At d1 j) (hnd : ∀ kv, j ≠ .dict kv) :
+    (hat : AtV d1 dflt j) (hnd : ∀ kv, j ≠ .dict kv) :
     st.readUtf8 = .ok (j, ⟨rest, d1⟩) := by
   obtain ⟨top, tl, rfl, htop⟩ := hr
   unfold DS.readUtf8
   rw [dadv_term hE rfl rfl]
-  simp only [bind, Except.bind, htop, symDefault, readValue_at hat hnd dflt]
+  simp only [bind, Except.bind, htop, symDefault, readValue_at hat hnd]
   rfl
 
 theorem contains_indexOf (xs : List String) (x : String) (h : xs.contains x = true) : ∃ i, indexOf? xs x = some i ∧ xs[i]? = some x := by
@@ -394,16 +484,16 @@ theorem contains_indexOf (xs : List String) (x : String) (h : xs.contains x = tr
 
 theorem denum {st : DS} {acts rest : List Sym} {d1 : Dec} {dflt : Option Val} {syms : List String} {x : String} {i : Nat}
     (hE : DEntry st acts (.seq [.term .enum dflt, .enumLabels syms]) rest d1) (hi : indexOf? syms x = some i)
-    (hat : At d1 (.str x)) :
+    (hat : AtV d1 dflt (.str x)) :
     st.readEnum = .ok (i, ⟨rest, d1⟩) := by
   unfold DS.readEnum
   rw [dadv_term (dentry_seq hE) rfl rfl]
   simp only [bind, Except.bind, List.cons_append, List.nil_append, symDefault,
-    readValue_at hat (by intro kv h; cases h) dflt, pure, Except.pure, hi]
+    readValue_at hat (by intro kv h; cases h), pure, Except.pure, hi]
 
 /-! #### part D4: arrays -/
 
-theorem pushAdjust_at {d1 : Dec} {j : Val} (hat : At d1 j) (dflt : Option Val) :
+theorem pushAdjust_at {d1 : Dec} {j : Val} {dflt : Option Val} (hat : AtV d1 dflt j) :
     d1.pushAdjust dflt = .ok { d1 with stack := (d1.current, d1.key) :: d1.stack, current := j } := by
   unfold Dec.pushAdjust Dec.push
   cases hat with
@@ -414,6 +504,7 @@ theorem pushAdjust_at {d1 : Dec} {j : Val} (hat : At d1 j) (dflt : Option Val) :
     split
     · rename_i h1 h2; cases h2
     · rfl
+  | absent kv s hc hk hg hd => simp only [hc, hk, hg, hd, getDefault, bind, Except.bind, pure, Except.pure]
 
 structure ArrSt (st : DS) (rest : List Sym) (I : Sym) (fr : List (Val × Val)) (xs : List Val)
     (data : List Val) (done : Bool) : Prop where
@@ -469,7 +560,7 @@ theorem ditems (env : Env) (fuel : Nat) (IH : DSound env fuel)
             exact advL_rep decAct k .arrayEnd _ rest e (by simpa [BEq.comm] using h1)
               (advL_body_not_none decAct k [I] .itemEnd none [] e)
           · intro a h; cases h
-        have hat : At d x := .direct rfl hst.key
+        have hat : At env items d none x := .direct rfl hst.key
         obtain ⟨st1, hm, acts', hps1, hend1, _, _, d3, hr1, haf⟩ :=
           IH items x a hx hfx hkx hsx none I hG hne hok ⟨st.ps, d⟩ [] _ d hE ⟨_, _, rfl, rfl⟩ hat
         -- the iterator's pop, then ItemEnd
@@ -516,13 +607,13 @@ theorem darray (env : Env) (fuel : Nat) (IH : DSound env fuel)
     (hall : ∀ x ∈ xs, Fits env fuel items x ∧ KeysOk x ∧ Small x) (hlen : xs.length < DFUEL)
     (st : DS) (acts rest : List Sym) (d1 : Dec)
     (hE : DEntry st acts (.seq [.term .arrayStart dflt, .rep .arrayEnd [I, .term .itemEnd none]]) rest d1)
-    (hat : At d1 (.list xs)) (flat rec1 : Prop) (hrec : rec1 → False) :
+    (hat : AtV d1 dflt (.list xs)) (flat rec1 : Prop) (hrec : rec1 → False) :
     ∃ st', mDecode (fuel+1) env (.array items) st = .ok (.list ws, st') ∧ DExit st' rest d1 flat rec1 := by
   have hstart : st.arrayStart = .ok ⟨.rep .arrayEnd [I, .term .itemEnd none] :: rest,
       { d1 with stack := (d1.current, d1.key) :: d1.stack, current := .list xs, key := .none }⟩ := by
     unfold DS.arrayStart
     rw [dadv_term (dentry_seq hE) rfl rfl]
-    simp only [bind, Except.bind, symDefault, pushAdjust_at hat dflt, pure, Except.pure]
+    simp only [bind, Except.bind, symDefault, pushAdjust_at hat, pure, Except.pure]
     rfl
   have hst2 : ArrSt ⟨.rep .arrayEnd [I, .term .itemEnd none] :: rest,
       { d1 with stack := (d1.current, d1.key) :: d1.stack, current := .list xs, key := .none }⟩ rest I
@@ -643,7 +734,7 @@ theorem dentries (env : Env) (fuel : Nat) (IH : DSound env fuel)
       have hE2 : DEntry ⟨V :: .rep .mapEnd body :: rest, { st.d.push with key := .str k }⟩ [] V (.rep .mapEnd body :: rest)
           { st.d.push with key := .str k } :=
         dentry_actual _ _ _ [] V _ rfl (by intro a h; cases h) rfl
-      have hat : At { st.d.push with key := .str k } x0 :=
+      have hat : At env values { st.d.push with key := .str k } none x0 :=
         .keyed ((.str k, x0) :: M) k (by simp only [Dec.push]; exact hst.cur) rfl (by simp [dictGetV])
       obtain ⟨st1, hm, acts', hps1, hend1, hnp1, _, d3, hr1, haf⟩ :=
         IH values x0 a hx hfx hkx hsx none V hG hne hok _ [] _ _ hE2 ⟨_, _, rfl, rfl⟩ hat
@@ -681,13 +772,13 @@ theorem dmap (env : Env) (fuel : Nat) (IH : DSound env fuel)
     (hall : ∀ p ∈ M, Fits env fuel values p.2 ∧ KeysOk p.2 ∧ Small p.2) (hlen : M.length < DFUEL)
     (st : DS) (acts rest : List Sym) (d1 : Dec)
     (hE : DEntry st acts (.seq [.term .mapStart dflt, .rep .mapEnd [.term .string none, .term .mapKeyMarker none, V]]) rest d1)
-    (hat : At d1 (.dict M)) (flat rec1 : Prop) (hrec : rec1 → False) :
+    (hat : AtV d1 dflt (.dict M)) (flat rec1 : Prop) (hrec : rec1 → False) :
     ∃ st', mDecode (fuel+1) env (.map values) st = .ok (.dict ws, st') ∧ DExit st' rest d1 flat rec1 := by
   have hstart : st.mapStart = .ok ⟨.rep .mapEnd [.term .string none, .term .mapKeyMarker none, V] :: rest,
       { d1 with stack := (d1.current, d1.key) :: d1.stack, current := .dict M }⟩ := by
     unfold DS.mapStart
     rw [dadv_term (dentry_seq hE) rfl rfl]
-    simp only [bind, Except.bind, symDefault, pushAdjust_at hat dflt, pure, Except.pure]
+    simp only [bind, Except.bind, symDefault, pushAdjust_at hat, pure, Except.pure]
     rfl
   have hst2 : MapSt ⟨.rep .mapEnd [.term .string none, .term .mapKeyMarker none, V] :: rest,
       { d1 with stack := (d1.current, d1.key) :: d1.stack, current := .dict M }⟩ rest V
@@ -807,7 +898,7 @@ theorem dentries1 (env : Env) (fuel : Nat) (IH : DSound env fuel)
       have hE2 : DEntry ⟨V :: .rep .mapEnd body :: rest, { dA with key := .str k }⟩ [] V (.rep .mapEnd body :: rest)
           { dA with key := .str k } :=
         dentry_actual _ _ _ [] V _ rfl (by intro a h; cases h) rfl
-      have hat : At { dA with key := .str k } x0 :=
+      have hat : At env values { dA with key := .str k } none x0 :=
         .keyed ((.str k, x0) :: M) k hcurA rfl (by simp [dictGetV])
       obtain ⟨st1, hm, acts', hps1, hend1, _, hrec1, d3, hr1, haf⟩ :=
         IH values x0 a hx hfx hkx hsx none V hG hne hok _ [] _ _ hE2 ⟨_, _, rfl, rfl⟩ hat
@@ -840,13 +931,13 @@ theorem dmap1 (env : Env) (fuel : Nat) (IH : DSound env fuel)
     (hall : ∀ p ∈ M, Fits env fuel values p.2 ∧ KeysOk p.2 ∧ Small p.2) (hlen : M.length < DFUEL)
     (st : DS) (acts rest : List Sym) (d1 : Dec)
     (hE : DEntry st acts (.seq [.term .mapStart dflt, .rep .mapEnd [.term .string none, .term .mapKeyMarker none, V]]) rest d1)
-    (hat : At d1 (.dict M)) (flat rec1 : Prop) (hrec : rec1 → False) :
+    (hat : AtV d1 dflt (.dict M)) (flat rec1 : Prop) (hrec : rec1 → False) :
     ∃ st', mDecode (fuel+1) env (.map values) st = .ok (.dict ws, st') ∧ DExit st' rest d1 flat rec1 := by
   have hstart : st.mapStart = .ok ⟨.rep .mapEnd [.term .string none, .term .mapKeyMarker none, V] :: rest,
       { d1 with stack := (d1.current, d1.key) :: d1.stack, current := .dict M }⟩ := by
     unfold DS.mapStart
     rw [dadv_term (dentry_seq hE) rfl rfl]
-    simp only [bind, Except.bind, symDefault, pushAdjust_at hat dflt, pure, Except.pure]
+    simp only [bind, Except.bind, symDefault, pushAdjust_at hat, pure, Except.pure]
     rfl
   have hst2 : MapSt1 ⟨.rep .mapEnd [.term .string none, .term .mapKeyMarker none, V] :: rest,
       { d1 with stack := (d1.current, d1.key) :: d1.stack, current := .dict M }⟩ rest V
@@ -954,7 +1045,7 @@ theorem dec_with_current_self (d : Dec) (c : Val) (h : d.current = c) : { d with
 
 theorem dreadIndex_null {st : DS} {acts rest : List Sym} {d1 : Dec} {syms : List Sym} {labels : List String} {dflt : Option Val}
     {i : Nat} {sym : Sym}
-    (hE : DEntry st acts (.seq [.term .union none, .alt syms labels dflt]) rest d1) (hat : At d1 .none)
+    (hE : DEntry st acts (.seq [.term .union none, .alt syms labels dflt]) rest d1) (hat : AtP d1 .none)
     (hi : indexOf? labels "null" = some i) (hsym : syms[i]? = some sym) :
     st.readIndex = .ok (i, ⟨sym :: rest, d1⟩) := by
   unfold DS.readIndex
@@ -973,9 +1064,9 @@ theorem dreadIndex_null {st : DS} {acts rest : List Sym} {d1 : Dec} {syms : List
 
 theorem dreadIndex_dict {st : DS} {acts rest : List Sym} {d1 : Dec} {syms : List Sym} {labels : List String} {dflt : Option Val}
     {i : Nat} {sym : Sym} {l : String} {x : Val}
-    (hE : DEntry st acts (.seq [.term .union none, .alt syms labels dflt]) rest d1) (hat : At d1 (.dict [(.str l, x)]))
+    (hE : DEntry st acts (.seq [.term .union none, .alt syms labels dflt]) rest d1) (hat : AtP d1 (.dict [(.str l, x)]))
     (hi : indexOf? labels l = some i) (hsym : syms[i]? = some sym) :
-    ∃ d2, st.readIndex = .ok (i, ⟨sym :: .unionEnd :: rest, d2⟩) ∧ At d2 x ∧ d2.stack = d1.stack ∧ d2.key = d1.key ∧
+    ∃ d2, st.readIndex = .ok (i, ⟨sym :: .unionEnd :: rest, d2⟩) ∧ AtP d2 x ∧ d2.stack = d1.stack ∧ d2.key = d1.key ∧
       d2.data = d1.data ∧ d2.done = d1.done ∧
       (∀ kv s, d1.current = .dict kv → d1.key = .str s → d2.current = .dict (valDictSet kv s x)) := by
   cases hat with
@@ -1001,15 +1092,33 @@ theorem dreadIndex_dict {st : DS} {acts rest : List Sym} {d1 : Dec} {syms : List
     · intro kv' s' _ hk'
       rw [hk] at hk'; cases hk'
 
+/-- the key is absent: `read_index` puts the default into the object, wrapped under the first branch's label, and goes on
+    as if it had been there -/
+theorem dreadIndex_absent {st : DS} {acts rest : List Sym} {d1 : Dec} {syms : List Sym} {l0 : String} {lrest : List String} {dv : Val}
+    {sym0 : Sym} {kv : List (Val × Val)} {s : String}
+    (hE : DEntry st acts (.seq [.term .union none, .alt syms (l0 :: lrest) (some dv)]) rest d1)
+    (hc : d1.current = .dict kv) (hk : d1.key = .str s) (hg : dictGetV kv s = none) (hsym : syms[0]? = some sym0) :
+    ∃ d2, st.readIndex = .ok (0, ⟨sym0 :: .unionEnd :: rest, d2⟩) ∧ AtP d2 dv ∧ d2.stack = d1.stack ∧ d2.key = d1.key ∧
+      d2.data = d1.data ∧ d2.done = d1.done ∧ d2.current = .dict (valDictSet kv s dv) := by
+  refine ⟨{ d1 with current := .dict (valDictSet kv s dv) }, ?_, .keyed (valDictSet kv s dv) s rfl hk (get_set_same kv s dv),
+    rfl, rfl, rfl, rfl, rfl⟩
+  unfold DS.readIndex
+  rw [dadv_term (dentry_seq hE) rfl rfl]
+  simp only [bind, Except.bind, List.cons_append, List.nil_append]
+  have hidx : indexOf? (l0 :: lrest) l0 = some 0 := by unfold indexOf?; simp [List.findIdx_cons]
+  simp only [hc, hk, dictGetKey, hg, getDefault, pure, Except.pure, dictSetKey, get_set_same, List.getLast?_singleton, hidx, hsym,
+    valDictSet_idem]
+  simp
+
 /-! #### part D10: unions (assembly) -/
 
-theorem dunion (env : Env) (henv : EnvOk env) (fuel : Nat) (IH : DSound env fuel)
+theorem dunion_present (env : Env) (henv : EnvOk env) (fuel : Nat) (IH : DSound env fuel)
     (bs : List Schema) (dflt : Option Val) (syms : List Sym) (hGL : GramList env bs syms)
     (hneL : ∀ b ∈ bs, nonEmptyRec b = true) (hokL : ∀ b ∈ bs, DOk env b)
     (j w : Val) (hdec : Json.decode (fuel+1) env (.union bs) j = .ok w) (hfit : Fits env (fuel+1) (.union bs) j)
     (hkeys : KeysOk j) (hsmall : Small j)
     (st : DS) (acts rest : List Sym) (d1 : Dec)
-    (hE : DEntry st acts (.seq [.term .union none, .alt syms (bs.map label) dflt]) rest d1) (hr : restOk rest) (hat : At d1 j) :
+    (hE : DEntry st acts (.seq [.term .union none, .alt syms (bs.map label) dflt]) rest d1) (hr : restOk rest) (hat : AtP d1 j) :
     ∃ st', mDecode (fuel+1) env (.union bs) st = .ok (w, st') ∧
       DExit st' rest d1 (Flat env (.union bs)) (Rec1 env (.union bs)) := by
   obtain ⟨hf1, hf2, hf3⟩ := hfit
@@ -1032,7 +1141,7 @@ theorem dunion (env : Env) (henv : EnvOk env) (fuel : Nat) (IH : DSound env fuel
       have hri := dreadIndex_null hE hat hi hsym
       have hE2 : DEntry ⟨sym :: rest, d1⟩ [] sym rest d1 := dentry_actual _ _ _ [] sym rest rfl (by intro a h; cases h) rfl
       obtain ⟨st', hm, hx⟩ := IH b .none w hdec (hf2 b rfl hfind) hkeys hsmall none sym hGb (hneL b hbmem) (hokL b hbmem)
-        _ [] rest d1 hE2 hr hat
+        _ [] rest d1 hE2 hr (hat.toAt env b none)
       refine ⟨st', ?_, dexit_mono hx (fun hq => flat_union_inv hq b hbmem) (fun hq => by cases hq)⟩
       simp only [mDecode, bind, Except.bind, hri, hbi, hm]
   · -- {label: value}
@@ -1050,7 +1159,7 @@ theorem dunion (env : Env) (henv : EnvOk env) (fuel : Nat) (IH : DSound env fuel
         dentry_actual _ _ _ [] sym _ rfl (by intro a h; cases h) rfl
       obtain ⟨st', hm, acts'', hps, hend, hnp, _, d3, hrun, haf⟩ :=
         IH b x w hdec (hf3 l x b rfl hfind) (keysOk_single hkeys) (small_single hsmall) none sym hGb (hneL b hbmem) (hokL b hbmem)
-        _ [] (.unionEnd :: rest) d2 hE2 ⟨_, _, rfl, rfl⟩ hat2
+        _ [] (.unionEnd :: rest) d2 hE2 ⟨_, _, rfl, rfl⟩ (hat2.toAt env b none)
       refine ⟨st', ?_, acts'' ++ [.unionEnd], by simp [hps], ?_, ?_, (fun hq => by cases hq), d3, ?_, ?_⟩
       · simp only [mDecode, bind, Except.bind, hri, hbi, hm]
       · intro a ha
@@ -1069,6 +1178,82 @@ theorem dunion (env : Env) (henv : EnvOk env) (fuel : Nat) (IH : DSound env fuel
         obtain ⟨kv', hc3, hse⟩ := haf.cur (valDictSet kv s x) s (hcur2 kv s hc hk) (hkey2.trans hk)
         exact ⟨kv', hc3, sameElse_trans (sameElse_set kv s x) hse⟩
   · cases hdec
+
+theorem dunion (env : Env) (henv : EnvOk env) (fuel : Nat) (IH : DSound env fuel)
+    (bs : List Schema) (dflt : Option Val) (syms : List Sym) (hGL : GramList env bs syms)
+    (hneL : ∀ b ∈ bs, nonEmptyRec b = true) (hokL : ∀ b ∈ bs, DOk env b)
+    (j w : Val) (hdec : Json.decode (fuel+1) env (.union bs) j = .ok w) (hfit : Fits env (fuel+1) (.union bs) j)
+    (hkeys : KeysOk j) (hsmall : Small j)
+    (st : DS) (acts rest : List Sym) (d1 : Dec)
+    (hE : DEntry st acts (.seq [.term .union none, .alt syms (bs.map label) dflt]) rest d1) (hr : restOk rest)
+    (hat : At env (.union bs) d1 dflt j) :
+    ∃ st', mDecode (fuel+1) env (.union bs) st = .ok (w, st') ∧
+      DExit st' rest d1 (Flat env (.union bs)) (Rec1 env (.union bs)) := by
+  cases hat with
+  | keyed kv k hc hk hg =>
+    exact dunion_present env henv fuel IH bs dflt syms hGL hneL hokL j w hdec hfit hkeys hsmall st acts rest d1 hE hr (.keyed kv k hc hk hg)
+  | direct hc hk =>
+    exact dunion_present env henv fuel IH bs dflt syms hGL hneL hokL j w hdec hfit hkeys hsmall st acts rest d1 hE hr (.direct hc hk)
+  | absent kv k dv hc hk hg hd hj hnull =>
+    subst hd
+    cases bs with
+    | nil =>
+      -- a union without branches decodes nothing
+      simp only [absentWrap, unwrapRef] at hj
+      subst hj
+      simp only [Json.decode] at hdec
+      split at hdec
+      · simp [List.find?] at hdec
+      · simp [findLabel, List.find?] at hdec
+      · cases hdec
+    | cons b0 bs' =>
+      cases hGL with
+      | cons _ _ sym0 syms' hG0 hGrest =>
+      obtain ⟨hf1, hf2, hf3⟩ := hfit
+      have hb0mem : b0 ∈ b0 :: bs' := by simp
+      obtain ⟨d2, hri, hat2, hstk2, hkey2, hdata2, hdone2, hcur2⟩ :=
+        dreadIndex_absent (syms := sym0 :: syms') (l0 := label b0) (lrest := bs'.map label) (dv := dv) (sym0 := sym0) (kv := kv) (s := k)
+          (by simpa using hE) hc hk hg rfl
+      have hE2 : DEntry ⟨sym0 :: .unionEnd :: rest, d2⟩ [] sym0 (.unionEnd :: rest) d2 :=
+        dentry_actual _ _ _ [] sym0 _ rfl (by intro a h; cases h) rfl
+      -- what the function-level reader decodes, and under which branch
+      have hkey : ∃ x, Json.decode fuel env b0 x = .ok w ∧ Fits env fuel b0 x ∧ KeysOk x ∧ Small x ∧ x = dv := by
+        simp only [absentWrap, unwrapRef] at hj
+        by_cases hn : isNullBranch env b0 = true
+        · simp only [hn, if_true] at hj
+          have hdv : dv = .none := hnull b0 bs' (by simp [unwrapRef]) hn
+          subst hj; subst hdv
+          simp only [Json.decode, List.find?, hn] at hdec
+          exact ⟨.none, hdec, hf2 b0 rfl (by simp [List.find?, hn]), hkeys, hsmall, rfl⟩
+        · have hn' : isNullBranch env b0 = false := by simpa using hn
+          simp only [hn', Bool.false_eq_true, if_false] at hj
+          subst hj
+          have hfl : findLabel env (b0 :: bs') (label b0) = some b0 := by simp [findLabel, List.find?]
+          simp only [Json.decode, hfl] at hdec
+          exact ⟨dv, hdec, hf3 (label b0) dv b0 rfl hfl, keysOk_single hkeys, small_single hsmall, rfl⟩
+      obtain ⟨x, hdx, hfx, hkx, hsx, rfl⟩ := hkey
+      obtain ⟨st', hm, acts'', hps, hend, hnp, _, d3, hrun, haf⟩ :=
+        IH b0 x w hdx hfx hkx hsx none sym0 hG0 (hneL b0 hb0mem) (hokL b0 hb0mem)
+        _ [] (.unionEnd :: rest) d2 hE2 ⟨_, _, rfl, rfl⟩ (hat2.toAt env b0 none)
+      refine ⟨st', ?_, acts'' ++ [.unionEnd], by simp [hps], ?_, ?_, (fun hq => by cases hq), d3, ?_, ?_⟩
+      · simp only [mDecode, bind, Except.bind, hri, List.getElem?_cons_zero, hm]
+      · intro a ha
+        simp only [List.mem_append, List.mem_singleton] at ha
+        rcases ha with ha | rfl
+        · exact hend a ha
+        · rfl
+      · intro hq a ha
+        simp only [List.mem_append, List.mem_singleton] at ha
+        rcases ha with ha | rfl
+        · exact hnp (flat_union_inv hq b0 hb0mem) a ha
+        · rfl
+      · rw [runD_append, hrun]; rfl
+      · refine ⟨haf.stack.trans hstk2, haf.key.trans hkey2, haf.data.trans hdata2, haf.done.trans hdone2, ?_⟩
+        intro kv0 s0 hc0 hk0
+        rw [hc] at hc0; rw [hk] at hk0
+        cases hc0; cases hk0
+        obtain ⟨kv', hc3, hse⟩ := haf.cur (valDictSet kv k x) k hcur2 (hkey2.trans hk)
+        exact ⟨kv', hc3, sameElse_trans (sameElse_set kv k x) hse⟩
 
 /-! #### part D11: records -/
 
@@ -1121,7 +1306,7 @@ theorem small_get {kv : List (Val × Val)} {s : String} {x : Val} (h : Small (.d
 theorem dfield_step (env : Env) (fuel : Nat) (IH : DSound env fuel) (ft : Schema) (fd : Option Val) (t : Sym)
     (hG : Gram env ft fd t) (hne : nonEmptyRec ft = true) (hok : DOk env ft)
     (x a : Val) (hdec : Json.decode fuel env ft x = .ok a) (hfit : Fits env fuel ft x) (hkeys : KeysOk x) (hsmall : Small x)
-    (st : DS) (pa0 tail : List Sym) (dF : Dec) (hE : DEntry st pa0 t (.fieldEnd :: tail) dF) (hat : At dF x) :
+    (st : DS) (pa0 tail : List Sym) (dF : Dec) (hE : DEntry st pa0 t (.fieldEnd :: tail) dF) (hat : At env ft dF fd x) :
     ∃ st1 pa1, mDecode fuel env ft st = .ok (a, st1) ∧ st1.ps = pa1 ++ tail ∧ (∀ b ∈ pa1, endAct b = true) ∧
       (Flat env ft → ∀ b ∈ pa1, noPop b = true) ∧
       ∃ d3, runD pa1 st1.d = .ok d3 ∧ After dF d3 := by
@@ -1134,7 +1319,7 @@ theorem dfields (env : Env) (fuel : Nat) (IH : DSound env fuel) (kvj : List (Val
     ∀ (fields : List Field) (more : List Sym), GramFields env fields more →
     ∀ (acc ws : List (Val × Val)), decFieldsWith env (Json.decode fuel env) fields kvj acc = .ok ws →
     (fields.map Field.name).Nodup →
-    (∀ f ∈ fields, ∃ x, dictGetV kvj f.name = some x ∧ Fits env fuel f.type x ∧ KeysOk x ∧ Small x) →
+    (∀ f ∈ fields, ∃ x, FieldVal env kvj f x ∧ Fits env fuel f.type x ∧ KeysOk x ∧ Small x) →
     (∀ f ∈ fields, nonEmptyRec f.type = true ∧ DOk env f.type) →
     ∀ (st : DS) (pa : List Sym), st.ps = pa ++ more ++ rest → (∀ a ∈ pa, endAct a = true) →
     ∀ (dR : Dec), runD pa st.d = .ok dR → dR.stack = fr → dR.data = data → dR.done = done →
@@ -1157,7 +1342,7 @@ theorem dfields (env : Env) (fuel : Nat) (IH : DSound env fuel) (kvj : List (Val
     | cons _ _ t more' ht hmore =>
     obtain ⟨x, hget, hfit, hkx, hsx⟩ := hall f (by simp)
     obtain ⟨hnef, hokf⟩ := hsch f (by simp)
-    simp only [decFieldsWith, bind, Except.bind, hget, pure, Except.pure] at h
+    rw [decFields_step hget] at h
     cases hx : Json.decode fuel env f.type x with
     | error err => rw [hx] at h; cases h
     | ok a =>
@@ -1173,8 +1358,7 @@ theorem dfields (env : Env) (fuel : Nat) (IH : DSound env fuel) (kvj : List (Val
               · rfl)
           (by rw [runD_append, hrun]; rfl)
         cases st; exact this
-      have hat : At { dR with key := .str f.name } x :=
-        .keyed kvR f.name hcur rfl (by rw [hagree f (by simp)]; exact hget)
+      have hat : At env f.type { dR with key := .str f.name } f.default x := fieldVal_at hget hcur (hagree f (by simp))
       obtain ⟨st1, pa1, hm, hps1, hend1, hnp1, d3, hrun1, haf⟩ :=
         dfield_step env fuel IH f.type f.default t ht hnef hokf x a hx hfit hkx hsx st _ _ _ hE hat
       obtain ⟨kvR', hcur3, hse⟩ := haf.cur kvR f.name hcur rfl
@@ -1207,16 +1391,16 @@ theorem drecord (env : Env) (fuel : Nat) (IH : DSound env fuel)
     (hGF : GramFields env (f :: fs) body) (hnd : ((f :: fs).map Field.name).Nodup)
     (hsch : ∀ g ∈ f :: fs, nonEmptyRec g.type = true ∧ DOk env g.type)
     (kvj ws : List (Val × Val)) (hdec : decFieldsWith env (Json.decode fuel env) (f :: fs) kvj [] = .ok ws)
-    (hall : ∀ g ∈ f :: fs, ∃ x, dictGetV kvj g.name = some x ∧ Fits env fuel g.type x ∧ KeysOk x ∧ Small x)
+    (hall : ∀ g ∈ f :: fs, ∃ x, FieldVal env kvj g x ∧ Fits env fuel g.type x ∧ KeysOk x ∧ Small x)
     (st : DS) (acts rest : List Sym) (d1 : Dec)
-    (hE : DEntry st acts (.seq (.recordStart dflt :: body)) rest d1) (hat : At d1 (.dict kvj)) (flat rec1 : Prop) (hflat : flat → False)
+    (hE : DEntry st acts (.seq (.recordStart dflt :: body)) rest d1) (hat : AtV d1 dflt (.dict kvj)) (flat rec1 : Prop) (hflat : flat → False)
     (hrec1 : rec1 → ∀ g, (f :: fs).getLast? = some g → Flat env g.type) :
     ∃ st', mDecode (fuel+1) env (.record n (f :: fs) al) st = .ok (.dict ws, st') ∧ DExit st' rest d1 flat rec1 := by
   cases hGF with
   | cons _ _ t more' ht hmore =>
   obtain ⟨x, hget, hfit, hkx, hsx⟩ := hall f (by simp)
   obtain ⟨hnef, hokf⟩ := hsch f (by simp)
-  simp only [decFieldsWith, bind, Except.bind, hget, pure, Except.pure] at hdec
+  rw [decFields_step hget] at hdec
   cases hx : Json.decode fuel env f.type x with
   | error err => rw [hx] at hdec; cases hdec
   | ok a =>
@@ -1235,9 +1419,9 @@ theorem drecord (env : Env) (fuel : Nat) (IH : DSound env fuel)
         · rfl
         · rfl
       · rw [runD_append, hE0.run]
-        simp only [runD, decAct, pushAdjust_at hat dflt]
+        simp only [runD, decAct, pushAdjust_at hat]
         rfl
-    have hat1 : At { dR with key := .str f.name } x := .keyed kvj f.name rfl rfl hget
+    have hat1 : At env f.type { dR with key := .str f.name } f.default x := fieldVal_at (dR := dR) hget rfl rfl
     obtain ⟨st1, pa1, hm, hps1, hend1, hnp1, d3, hrun1, haf⟩ :=
       dfield_step env fuel IH f.type f.default t ht hnef hokf x a hx hfit hkx hsx st _ _ _ hE1 hat1
     obtain ⟨kvR', hcur3, hse⟩ := haf.cur kvj f.name rfl rfl
@@ -1312,6 +1496,7 @@ theorem dsound_all (env : Env) (henv : EnvOk env) : ∀ fuel, DSound env fuel :=
       | some l => simp [Json.decode, throw, throwThe, MonadExceptOf.throw] at hj
       | none =>
         simp only [Json.decode] at hj
+        have hatV : AtV d1 d j := hat.toV (by intro dv; simp [absentWrap, unwrapRef])
         cases hG with
         | null =>
           simp only [Fits] at hfit
@@ -1320,7 +1505,7 @@ theorem dsound_all (env : Env) (henv : EnvOk env) : ∀ fuel, DSound env fuel :=
           cases hj
           refine ⟨⟨rest, d1⟩, ?_, dexit_now rest d1 _ _ (fun h => by cases h)⟩
           simp only [mDecode, primTK]
-          exact dleaf hE rfl rfl hat (by intro kv h; cases h)
+          exact dleaf hE rfl rfl hatV (by intro kv h; cases h)
         | prim _ _ _ _ hp =>
           have hnd : ∀ kv, j ≠ .dict kv := by
             cases p <;> first | exact absurd rfl hp | (simpa only [Fits] using hfit)
@@ -1331,13 +1516,13 @@ theorem dsound_all (env : Env) (henv : EnvOk env) : ∀ fuel, DSound env fuel :=
             cases hj
             refine ⟨⟨rest, d1⟩, ?_, dexit_now rest d1 _ _ (fun h => by cases h)⟩
             simp only [mDecode]
-            exact dutf8 hE hr hat hnd
+            exact dutf8 hE hr hatV hnd
           | bytes =>
             cases j with
             | str t =>
               simp only [decPrim] at hj
               refine ⟨⟨rest, d1⟩, ?_, dexit_now rest d1 _ _ (fun h => by cases h)⟩
-              have hrl : st.readLeaf TK.bytes = .ok (.str t, ⟨rest, d1⟩) := dleaf hE rfl rfl hat hnd
+              have hrl : st.readLeaf TK.bytes = .ok (.str t, ⟨rest, d1⟩) := dleaf hE rfl rfl hatV hnd
               simp only [mDecode, bind, Except.bind, hrl]
               cases hl : latin1Enc t with
               | none => rw [hl] at hj; simp [throw, throwThe, MonadExceptOf.throw] at hj
@@ -1349,23 +1534,25 @@ theorem dsound_all (env : Env) (henv : EnvOk env) : ∀ fuel, DSound env fuel :=
               cases hj
               refine ⟨⟨rest, d1⟩, ?_, dexit_now rest d1 _ _ (fun h => by cases h)⟩
               simp only [mDecode]
-              exact dleaf hE rfl rfl hat hnd)
+              exact dleaf hE rfl rfl hatV hnd)
     | fixed n sz lt al =>
       cases lt with
       | some l => simp [Json.decode, throw, throwThe, MonadExceptOf.throw] at hj
       | none =>
+        have hatV : AtV d1 d j := hat.toV (by intro dv; simp [absentWrap, unwrapRef])
         cases hG
         cases j with
         | str t =>
           simp only [Json.decode] at hj
           refine ⟨⟨rest, d1⟩, ?_, dexit_now rest d1 _ _ (fun h => by cases h)⟩
-          have hrl : st.readLeaf TK.fixed = .ok (.str t, ⟨rest, d1⟩) := dleaf hE rfl rfl hat (by intro kv h; cases h)
+          have hrl : st.readLeaf TK.fixed = .ok (.str t, ⟨rest, d1⟩) := dleaf hE rfl rfl hatV (by intro kv h; cases h)
           simp only [mDecode, bind, Except.bind, hrl]
           cases hl : latin1Enc t with
           | none => rw [hl] at hj; simp [throw, throwThe, MonadExceptOf.throw] at hj
           | some b => rw [hl] at hj; simp only [pure, Except.pure] at hj ⊢; cases hj; rfl
         | _ => all_goals simp [Json.decode, throw, throwThe, MonadExceptOf.throw] at hj
     | enum n syms dflt al =>
+      have hatV : AtV d1 d j := hat.toV (by intro dv; simp [absentWrap, unwrapRef])
       cases hG
       cases j with
       | str x =>
@@ -1375,12 +1562,13 @@ theorem dsound_all (env : Env) (henv : EnvOk env) : ∀ fuel, DSound env fuel :=
           cases hj
           obtain ⟨i, hi, hget⟩ := contains_indexOf syms x hc'
           refine ⟨⟨rest, d1⟩, ?_, dexit_now rest d1 _ _ (fun h => by cases h)⟩
-          simp only [mDecode, bind, Except.bind, denum hE hi hat, hget, pure, Except.pure]
+          simp only [mDecode, bind, Except.bind, denum hE hi hatV, hget, pure, Except.pure]
         · have hcf : syms.contains x = false := by simpa using hc'
           rw [hcf] at hj
           simp [throw, throwThe, MonadExceptOf.throw] at hj
       | _ => all_goals simp [Json.decode, throw, throwThe, MonadExceptOf.throw] at hj
     | array items =>
+      have hatV : AtV d1 d j := hat.toV (by intro dv; simp [absentWrap, unwrapRef])
       cases hG with
       | array _ _ I hI =>
         simp only [nonEmptyRec] at hne
@@ -1405,9 +1593,10 @@ theorem dsound_all (env : Env) (henv : EnvOk env) : ∀ fuel, DSound env fuel :=
               | list _ h1 h2 => exact ⟨h1, h2⟩
               | leaf _ _ h => exact absurd rfl (h xs)
             exact darray env fuel IH items d I hI hne hoki xs ws hws
-              (fun x hx => ⟨hfit xs rfl x hx, hko' x hx, hsm'.2 x hx⟩) hsm'.1 st acts rest d1 hE hat _ _ (fun h => by cases h)
+              (fun x hx => ⟨hfit xs rfl x hx, hko' x hx, hsm'.2 x hx⟩) hsm'.1 st acts rest d1 hE hatV _ _ (fun h => by cases h)
         | _ => all_goals simp [Json.decode, throw, throwThe, MonadExceptOf.throw] at hj
     | map values =>
+      have hatV : AtV d1 d j := hat.toV (by intro dv; simp [absentWrap, unwrapRef])
       cases hG with
       | map _ _ V hV =>
         simp only [nonEmptyRec] at hne
@@ -1433,9 +1622,9 @@ theorem dsound_all (env : Env) (henv : EnvOk env) : ∀ fuel, DSound env fuel :=
               | leaf _ h _ => exact absurd rfl (h kv)
             rcases hflv with hflv | hrecv
             · exact dmap env fuel IH values d V hV hne hokv hflv kv ws hws hko'.1 hko'.2.1
-                (fun p hp => ⟨hfit kv rfl p hp, hko'.2.2 p hp, hsm'.2 p hp⟩) hsm'.1 st acts rest d1 hE hat _ _ (fun h => by cases h)
+                (fun p hp => ⟨hfit kv rfl p hp, hko'.2.2 p hp, hsm'.2 p hp⟩) hsm'.1 st acts rest d1 hE hatV _ _ (fun h => by cases h)
             · exact dmap1 env fuel IH values d V hV hne hokv hrecv kv ws hws hko'.1 hko'.2.1
-                (fun p hp => ⟨hfit kv rfl p hp, hko'.2.2 p hp, hsm'.2 p hp⟩) hsm'.1 st acts rest d1 hE hat _ _ (fun h => by cases h)
+                (fun p hp => ⟨hfit kv rfl p hp, hko'.2.2 p hp, hsm'.2 p hp⟩) hsm'.1 st acts rest d1 hE hatV _ _ (fun h => by cases h)
         | _ => all_goals simp [Json.decode, throw, throwThe, MonadExceptOf.throw] at hj
     | union bs =>
       cases hG with
@@ -1445,6 +1634,7 @@ theorem dsound_all (env : Env) (henv : EnvOk env) : ∀ fuel, DSound env fuel :=
         | union _ hokb =>
         exact dunion env henv fuel IH bs d syms hgl (nonEmptyRecL_mem bs hne) hokb j w hj hfit hko hsm st acts rest d1 hE hr hat
     | record n fields al =>
+      have hatV : AtV d1 d j := hat.toV (by intro dv; simp [absentWrap, unwrapRef])
       cases hG with
       | record _ _ _ _ body hgf =>
         simp only [nonEmptyRec, Bool.and_eq_true] at hne
@@ -1464,10 +1654,12 @@ theorem dsound_all (env : Env) (henv : EnvOk env) : ∀ fuel, DSound env fuel :=
             cases hj
             simp only [Fits] at hfit
             refine drecord env fuel IH n f fs al d body hgf hnd
-              (fun g hg => ⟨nonEmptyRecF_mem _ hne.2 g hg, hokf g hg⟩) kvj ws hws ?_ st acts rest d1 hE hat _ _ ?_ ?_
+              (fun g hg => ⟨nonEmptyRecF_mem _ hne.2 g hg, hokf g hg⟩) kvj ws hws ?_ st acts rest d1 hE hatV _ _ ?_ ?_
             · intro g hg
-              obtain ⟨x, hget, hfx⟩ := hfit kvj rfl g hg
-              exact ⟨x, hget, hfx, keysOk_get hko hget, small_get hsm hget⟩
+              obtain ⟨x, hget, hfx, hkd⟩ := hfit kvj rfl g hg
+              rcases hget with hg1 | ⟨hg1, hrest⟩
+              · exact ⟨x, .inl hg1, hfx, keysOk_get hko hg1, small_get hsm hg1⟩
+              · exact ⟨x, .inr ⟨hg1, hrest⟩, hfx, (hkd hg1).1, (hkd hg1).2⟩
             · intro hq; cases hq
             · intro hq
               cases hq with
@@ -1482,7 +1674,11 @@ theorem dsound_all (env : Env) (henv : EnvOk env) : ∀ fuel, DSound env fuel :=
         | ref _ s'' hget' hok' =>
         have : s'' = s' := by rw [hget] at hget'; cases hget'; rfl
         subst this
-        obtain ⟨st', hm, hx⟩ := IH s'' j w hj (hfit s'' hget) hko hsm d G hg' (henv n s'' hget).2 hok' st acts rest d1 hE hr hat
+        have hunw : unwrapRef env (.ref n) = unwrapRef env s'' := by
+          have hnd := (henv n s'' hget).1
+          simp only [unwrapRef, hget, Option.getD_some]
+          cases s'' <;> simp [Schema.isNamedDef] at hnd <;> rfl
+        obtain ⟨st', hm, hx⟩ := IH s'' j w hj (hfit s'' hget) hko hsm d G hg' (henv n s'' hget).2 hok' st acts rest d1 hE hr (hat.retype hunw)
         refine ⟨st', ?_, dexit_mono hx ?_ ?_⟩
         · simp only [mDecode, hget]; exact hm
         · intro hq
@@ -1827,7 +2023,7 @@ theorem spec_fits (pick : Nat → List Schema → Val → Option (Nat × Val)) (
           cases hjx
           obtain ⟨a, ha, hga⟩ := get_of_fields _ vkv fields kv hjs hnd f hf
           obtain ⟨b, hb, _⟩ := get_of_fields _ vkv fields wkv hws hnd f hf
-          exact ⟨a, hga, IH f.type _ a b ha hb⟩
+          exact ⟨a, .inl hga, IH f.type _ a b ha hb, fun hnone => by rw [hnone] at hga; cases hga⟩
         · cases hw
       | _ => all_goals simp [Spec.jsonEncodeWith] at hj
     | ref n =>
